@@ -76,6 +76,11 @@ fn index_order_case_inner(files: &[String], max_entries_per_hunk: usize) -> Opti
             }
         }
     }
+    // one file owned by a uid that has no passwd entry (only possible as root): its recorded owner has a group but no
+    // user, which must survive the index round trip or the self-diff below reports a change
+    if let Some(first) = files.first() {
+        let _ = std::os::unix::fs::chown(src.path().join(first), Some(54321), None);
+    }
     expected.sort_by(|a, b| doc_cmp(a, b));
     let input = json!({"files": files, "max_entries_per_hunk": max_entries_per_hunk});
     let rt = tokio::runtime::Runtime::new().ok()?;
